@@ -871,10 +871,21 @@ def run_reader(path, skip, otext_listing, col, ctx, tier, do_addressing, cat):
 
 
 def worker(job):
+    """Runs the sub-jobs of one listing file in this process and prints the collected result."""
     import warnings
     warnings.filterwarnings('ignore')
     sys.path.insert(0, job['repo'])
     col = Collector()
+    col.changed, col.notes, col.unclean = 0, [], []
+    for sub in job['subjobs']:
+        do_job(dict(job, **sub), col)
+    out = {'fail': list(col.fail.values()), 'evals': dict(col.evals), 'distinct': [list(map(str, d)) for d in col.distinct],
+           'samples': col.samples, 'cells': getattr(col, 'cells', 0), 'notes': col.notes[:5], 'changed': col.changed,
+           'unclean': col.unclean[:5]}
+    print('@@WORKER@@' + json.dumps(out))
+
+
+def do_job(job, col):
     path = job['path']
     f = rel(path)
     text = open(path, 'rb').read().decode('latin-1')
@@ -917,14 +928,13 @@ def worker(job):
                         if a != b:
                             col.samples.append({'selfcheck': 'tokenizer differs from intended tokens', 'file': f, 'table': nm,
                                                 'first': next(((x, y) for x, y in zip(a, b or []) if x != y), None)})
-            col.changed = o.changed
+            col.changed += o.changed
             run_reader(p2, [], o, col, ctx, tier, False, 'perturb-' + job['variant'].split('@')[0])
         finally:
             shutil.rmtree(d, ignore_errors=True)
-    out = {'fail': list(col.fail.values()), 'evals': dict(col.evals), 'distinct': [list(map(str, d)) for d in col.distinct],
-           'samples': col.samples, 'cells': getattr(col, 'cells', 0), 'notes': o.notes[:5], 'changed': getattr(col, 'changed', 0),
-           'unclean': [(bi, n) for bi, b in enumerate(o.blocks) for n, t in b.tables.items() if not t.clean][:5]}
-    print('@@WORKER@@' + json.dumps(out))
+    if job['kind'] == 'base':
+        col.notes += o.notes[:5] + [n for b in o.blocks[:1] for t in b.tables.values() for n in t.notes[:2]]
+        col.unclean += [(bi, n) for bi, b in enumerate(o.blocks) for n, t in b.tables.items() if not t.clean][:5]
 
 
 def variants_for(tier, seed, fileno):
@@ -953,18 +963,24 @@ def main():
     try:
         files = corpus(REPO)
         jobs = []
+        nsub = 0
         for n, f in enumerate(files):
-            jobs.append({'kind': 'base', 'path': f})
-            jobs.append({'kind': 'skip', 'path': f})
+            subs = [{'kind': 'base'}, {'kind': 'skip'}]
             for (v, vs) in variants_for(tier, seed, n):
-                jobs.append({'kind': 'variant', 'path': f, 'variant': v, 'vseed': vs + 7919 * n})
+                subs.append({'kind': 'variant', 'variant': v, 'vseed': vs + 7919 * n})
+            nsub += len(subs)
+            # one process per listing file and group of sub-jobs; big files get a process per sub-job
+            size = os.path.getsize(f)
+            per = 1 if size > 600000 else (2 if size > 250000 else (5 if tier == 'quick' else 6))
+            for i in range(0, len(subs), per):
+                jobs.append({'path': f, 'subjobs': subs[i:i + per]})
         for j in jobs:
             j.update({'tier': tier, 'repo': REPO, 'scratch': scratch})
         # big files first
-        jobs.sort(key=lambda j: -os.path.getsize(j['path']) * (8 if j['kind'] == 'skip' else 1))
+        jobs.sort(key=lambda j: -os.path.getsize(j['path']) * sum(4 if sj['kind'] == 'skip' else 1 for sj in j['subjobs']))
 
         def run(job):
-            tag = '%s %s%s' % (job['kind'], rel(job['path']), (' ' + job['variant']) if job['kind'] == 'variant' else '')
+            tag = '%s %s' % (rel(job['path']), '+'.join(sj['kind'] + ((':' + sj['variant']) if sj['kind'] == 'variant' else '') for sj in job['subjobs']))
             env = dict(os.environ, PYTOUGH_REPO=REPO)
             def limit():
                 import resource
@@ -987,7 +1003,7 @@ def main():
             results = list(ex.map(run, jobs))
         harness_errors = []
         for tag, job, status, res in results:
-            inp = {'file': rel(job['path']), 'job': job['kind'], 'variant': job.get('variant'), 'vseed': job.get('vseed')}
+            inp = {'file': rel(job['path']), 'subjobs': job['subjobs']}
             if status == 'timeout':
                 failures['timeout ' + tag] = {'key': 'timeout ' + tag, 'what': 'no result within %d s of CPU time (or %d s wall)' % (JOB_LIMIT, JOB_WALL),
                                               'input': inp, 'count': 1}
@@ -1022,9 +1038,10 @@ def main():
     order = sorted(failures, key=lambda k: (k.startswith('perturb-'), k.startswith('timeout')))      # stable
     for k in order:
         fl = failures[k]
-        w = fl['what'][:400] + (' [%d occurrences under this key]' % fl['count'] if fl['count'] > 1 else '')
+        w = ' / '.join(x.strip() for x in fl['what'].splitlines() if x.strip())[:400] + \
+            (' [%d occurrences under this key]' % fl['count'] if fl['count'] > 1 else '')
         flist.append({'key': k, 'what': w, 'input': fl['input']})
-    samples.append({'files': len(files), 'jobs': len(jobs), 'cells_compared': cells, 'cells_rewritten_in_variants': changed,
+    samples.append({'files': len(files), 'processes': len(jobs), 'jobs': nsub, 'cells_compared': cells, 'cells_rewritten_in_variants': changed,
                     'evaluations_by_contract': dict(evals), 'oracle_notes': notes})
     print('@@JSON@@' + json.dumps({'evaluations': int(sum(evals.values())), 'distinct': len(distinct), 'failures': flist[:MAXFAIL],
                                    'nfailures': len(flist), 'samples': samples, 'seconds': time.time() - t0}))
